@@ -29,7 +29,7 @@ theorem AwOK.poll {ld : Bool} {v : Option Val} {a : Aw} (h : AwOK ld a) (hv : ld
     intro _ h1 h2
     rcases hk with hk | hk
     · exact absurd hk h1
-    · rw [h2] at hk; exact absurd hk (by decide)
+    · rw [h2] at hk; exact absurd hk.2 (by decide)
   · split <;> simp_all
 
 theorem awAll_wake {ld : Bool} {l : List Aw} (h : ∀ a ∈ l, AwOK ld a) :
